@@ -71,7 +71,7 @@ DimVals(d) ==
       [] d = "tc"     -> {"absent", "s_auto", "s_any", "s_none", "o_auto", "o_any", "o_none", "o_tool", "o_tool_noname"}
       [] d = "unk"    -> {"none", "top"}
       [] d = "body"   -> {"ok", "trunc", "notjson", "array"}
-      [] d = "extra"  -> {"none", "topk", "meta", "toolcc"}
+      [] d = "extra"  -> {"none", "topk", "meta", "toolcc", "think"}   \* think: extended thinking with a budget below max_tokens
 
 -----------------------------------------------------------------------------
 (* Which requests are valid.                                               *)
